@@ -12,6 +12,7 @@ theorem ev_channel_release_tie : Generated.ev_channel_release = PinnedMpx.ev_cha
 theorem ev_channel_free_tie : Generated.ev_channel_free = PinnedMpx.ev_channel_free := by decide
 theorem ev_channel_Free_tie : Generated.ev_channel_Free = PinnedMpx.ev_channel_Free := by decide
 theorem ev_channel_receive_tie : Generated.ev_channel_receive = PinnedMpx.ev_channel_receive := by decide
+theorem ev_channel_closeUser_tie : Generated.ev_channel_closeUser = PinnedMpx.ev_channel_closeUser := by decide
 theorem ev_channel_ReceiveAsync_tie : Generated.ev_channel_ReceiveAsync = PinnedMpx.ev_channel_ReceiveAsync := by decide
 theorem ev_channel_Receive_tie : Generated.ev_channel_Receive = PinnedMpx.ev_channel_Receive := by decide
 theorem ev_channel_ReceiveWait_tie : Generated.ev_channel_ReceiveWait = PinnedMpx.ev_channel_ReceiveWait := by decide
